@@ -285,11 +285,84 @@ def check(run):
         run.count('nvalues=%d' % min(len(c['values']), 20))
         run.count('fanout=%d+%d' % (len(c['on_output']), len(c['on_every'])))
     res = common.standard_flow(run, spec, cases)
+    check_reentrant_assignment(run)
     for c, o, ch in res:
         if 'groups' in o:
             run.count('deliveries', sum(len(g) for g in o['groups']))
             run.count('assignments', len(o['assigns']))
 
 
+def check_reentrant_assignment(run):
+    """'each configured event is sent once per trigger' - also when the handler of an earlier
+    destination makes the sender assign its output once more (a feedback that does not pass through the
+    sender's event handler): every destination of the fan-out gets one event for each of the two
+    changes, the on_every_output destination one for each assignment."""
+    import asyncio
+    from . import vloop
+    obs = dict(received=None, final=None, error=None, harness=None)
+
+    async def main(loop):
+        edzed.reset_circuit()
+        circuit = edzed.get_circuit()
+        got = {0: [], 1: [], 2: [], 3: []}
+
+        class Setter(edzed.SBlock):
+            def init_regular(self):
+                self.set_output(0)
+
+            def _event_set(self, *, value, **_data):
+                self.set_output(value)
+
+        class Dest(edzed.SBlock):
+            def init_regular(self):
+                self.set_output(0)
+
+            def _event(self, etype, data):
+                n = int(self.name[1:])
+                got[n].append([data.get('previous') if data.get('previous') is not edzed.UNDEF else 'UNDEF',
+                               data['value']])
+                if n == 0 and data['value'] == 1:
+                    snd.set_output(2)          # the feedback: the sender's output is assigned again
+        dests = [Dest(f"d{i}") for i in range(4)]
+        # (d0 itself only wants the value 1: the nested change is filtered out for it - an event to a block
+        # that is still handling one is refused)
+        snd = Setter('snd', on_output=[edzed.Event(dests[0], 'ev', efilter=lambda data: data['value'] == 1)]
+                     + [edzed.Event(d, 'ev', efilter=edzed.not_from_undef) for d in dests[1:3]],
+                     on_every_output=edzed.Event(dests[3], 'ev', efilter=edzed.not_from_undef))
+        task = asyncio.create_task(circuit.run_forever())
+        await circuit.wait_init()
+        try:
+            snd.event('set', value=1)
+        except Exception as err:                 # noqa
+            obs['error'] = repr(err)[:200]
+        obs['received'] = {str(k): sorted(v, key=repr) for k, v in got.items()}
+        obs['final'] = snd.output
+        try:
+            await circuit.shutdown()
+        except BaseException:                    # noqa
+            pass
+    try:
+        vloop.run_virtual(main, wall_limit_s=10.0)
+    except BaseException as err:                 # noqa
+        obs['harness'] = repr(err)[:200]
+    finally:
+        edzed.reset_circuit()
+    run.add_case(dict(reentrant_assignment=True), True)
+    run.count('reentrant_assignment')
+    both = sorted([[0, 1], [1, 2]], key=repr)
+    want = {'0': [[0, 1]], '1': both, '2': both, '3': both}
+    ok = obs['harness'] is None and obs['error'] is None and obs['received'] == want and obs['final'] == 2
+    run.add_obligation(ok)
+    if not ok:
+        run.violation('monitor', dict(case=dict(reentrant_assignment=True), observed=obs),
+                      f"sender with on_output -> d0, d1, d2 and on_every_output -> d3; 'set' 1, and d0's handler makes the "
+                      f"sender assign 2: [previous, value] pairs received per destination {obs['received']} (expected "
+                      f"{want}: one event per change for everybody), final output {obs['final']!r}, error "
+                      f"{obs['error']}; harness: {obs['harness']}", clause='reentrant_assignment', concrete=True)
+
+
 def replay(run, path):
+    _, case = common.load_replay_case(path)
+    if isinstance(case, dict) and 'reentrant_assignment' in case:
+        return common.directed_replay(run, path, lambda: check_reentrant_assignment(run))
     return common.std_replay(run, C02(), path)
